@@ -10,7 +10,7 @@ use std::os::unix::fs::MetadataExt;
 
 pub static DEF: PropDef = PropDef {
     id: "C13",
-    rule: "random: one directory holding every creatable type (regular empty/non-empty, directory empty/non-empty, fifo, socket, hard-linked pair, symlinks to each of those, dangling link), each with a random 12-bit mode and uid/gid from {0,1,65534,54321} (lchown for links) x follow mode x {entries as starting points (depth 0), one level down} x ~14 tests per tree drawn from -type/-xtype t, -perm M|-M|/M in octal and two symbolic spellings (incl. who-less clauses and s/t bits), -links/-inum/-uid/-gid [+-]N around real values, -user/-group by name and number, -empty, -samefile F for every F, -lname. Oracle: predicate over lstat/stat records chosen per the statement. Exhaustive -perm sub-run: a directory of 4096 regular files, one per permission value; each operand is evaluated against ALL modes (operands: 300 random x 3 forms in quick, all 4096 x 3 in thorough), octal and symbolic spellings must select identical sets. Non-trivial = the entry set contains a link whose lstat and stat records differ in the tested attribute and the test is evaluated on it (always true for the generated directory), and >= 1 entry is selected and >= 1 rejected. Distinct = distinct case JSON.",
+    rule: "random: one directory holding every creatable type (regular empty/non-empty, directory empty/non-empty, fifo, socket, hard-linked pair, symlinks to each of those, dangling link), each with a random 12-bit mode and uid/gid from {0,1,65534,54321} (lchown for links) x follow mode x {entries as starting points (depth 0), one level down} x ~14 tests per tree drawn from -type/-xtype t, -perm M|-M|/M in octal and six symbolic spellings (per-class '=', additive chains, who-less clauses, subtractive 'a=rwx,o-w', copying 'g=u,o=g', overriding 'a=rwx,u=..'; s/t bits), -links/-inum/-uid/-gid [+-]N around real values, -user/-group by name and number, -empty, -samefile F for every F, -lname. Oracle: predicate over lstat/stat records chosen per the statement. Exhaustive -perm sub-run: a directory of 4096 regular files, one per permission value; each operand is evaluated against ALL modes (operands: 300 random x 3 forms in quick, all 4096 x 3 in thorough), octal and symbolic spellings must select identical sets. Non-trivial = the entry set contains a link whose lstat and stat records differ in the tested attribute and the test is evaluated on it (always true for the generated directory), and >= 1 entry is selected and >= 1 rejected. Distinct = distinct case JSON.",
     assumptions: &["the harness runs as root (chmod keeps all twelve bits, chown to ids without passwd entries works)", "who-less symbolic clauses (=rx, +x) mean 'a' - the process umask is not consulted (POSIX find / GNU find)"],
     run,
     replay,
@@ -54,7 +54,7 @@ pub fn symbolic(m: u32, variant: u8) -> String {
     let u = bits(m, 6, 0o4000, 's');
     let g = bits(m, 3, 0o2000, 's');
     let o = bits(m, 0, 0o1000, 't');
-    match variant % 3 {
+    match variant % 6 {
         0 => format!("u={u},g={g},o={o}"),
         1 => {
             // additive chain starting from nothing
@@ -69,6 +69,64 @@ pub fn symbolic(m: u32, variant: u8) -> String {
             } else {
                 parts.join(",")
             }
+        }
+        3 => {
+            // subtractive: everything on, then later clauses take bits away again (clauses apply in sequence)
+            let mut parts = vec!["a=rwx".to_string()];
+            for (who, sh) in [("u", 6), ("g", 3), ("o", 0)] {
+                let missing = bits(!m & (7 << sh), sh, 0, ' ');
+                if !missing.is_empty() {
+                    parts.push(format!("{who}-{missing}"));
+                }
+            }
+            if m & 0o4000 != 0 {
+                parts.push("u+s".into());
+            }
+            if m & 0o2000 != 0 {
+                parts.push("g+s".into());
+            }
+            if m & 0o1000 != 0 {
+                parts.push("o+t".into());
+            }
+            parts.join(",")
+        }
+        4 => {
+            // copying: g=u / o=g take the permissions another class has at that point, then corrections
+            let pu = (m >> 6) & 7;
+            let pg = (m >> 3) & 7;
+            let po = m & 7;
+            let mut parts = vec![format!("u={}", bits(pu << 6, 6, 0, ' ')), "g=u".to_string()];
+            let add = bits((pg & !pu) << 3, 3, 0, ' ');
+            let del = bits((pu & !pg) << 3, 3, 0, ' ');
+            if !add.is_empty() {
+                parts.push(format!("g+{add}"));
+            }
+            if !del.is_empty() {
+                parts.push(format!("g-{del}"));
+            }
+            parts.push("o=g".to_string());
+            let add = bits(po & !pg, 0, 0, ' ');
+            let del = bits(pg & !po, 0, 0, ' ');
+            if !add.is_empty() {
+                parts.push(format!("o+{add}"));
+            }
+            if !del.is_empty() {
+                parts.push(format!("o-{del}"));
+            }
+            if m & 0o4000 != 0 {
+                parts.push("u+s".into());
+            }
+            if m & 0o2000 != 0 {
+                parts.push("g+s".into());
+            }
+            if m & 0o1000 != 0 {
+                parts.push("+t".into());
+            }
+            parts.join(",")
+        }
+        5 => {
+            // overriding: a first clause sets bits that the later '=' clauses replace
+            format!("a=rwx,u={u},g={g},o={o}")
         }
         _ => {
             // who-less / 'a' clause for the bits common to all three, then the rest
@@ -139,9 +197,9 @@ pub fn gen_case(g: &mut Gen) -> Case {
                     _ => g.below(0o10000) as u32,
                 };
                 let prefix = g.pick(&["", "-", "/"]);
-                let text = match g.below(4) {
+                let text = match g.below(7) {
                     0 => format!("{m:o}"),
-                    k => symbolic(m, k as u8),
+                    k => symbolic(m, (k - 1) as u8),
                 };
                 vec![s("-perm"), format!("{prefix}{text}")]
             }
@@ -192,33 +250,45 @@ fn has_passwd(id: u32) -> bool {
 }
 
 /// the parsed numeric value of a -perm operand generated above
+/// Reference evaluation of a MODE operand: octal, or chmod-style symbolic clauses applied in
+/// sequence to an initial mode of 0 (who-less clauses mean 'a'; '=' replaces the named classes'
+/// bits, '+' adds, '-' removes; a permission of u/g/o copies that class's current rwx bits).
 fn perm_value(text: &str) -> u32 {
     if text.chars().next().map_or(false, |c| c.is_ascii_digit()) {
         return u32::from_str_radix(text, 8).unwrap();
     }
     let mut m = 0u32;
     for clause in text.split(',') {
-        let (who, rest) = match clause.find(['=', '+']) {
-            Some(i) => (&clause[..i], &clause[i + 1..]),
-            None => continue,
-        };
+        let Some(i) = clause.find(['=', '+', '-']) else { continue };
+        let (who, op, rest) = (&clause[..i], clause.as_bytes()[i] as char, &clause[i + 1..]);
         let who = if who.is_empty() || who == "a" { "ugo" } else { who };
+        let mut bits = 0u32;
+        let mut clear = 0u32;
         for w in who.chars() {
             let (sh, sp) = match w {
                 'u' => (6, 0o4000),
                 'g' => (3, 0o2000),
                 _ => (0, 0o1000),
             };
+            clear |= (7 << sh) | sp;
             for ch in rest.chars() {
-                m |= match ch {
+                bits |= match ch {
                     'r' => 4 << sh,
                     'w' => 2 << sh,
                     'x' => 1 << sh,
                     's' if w != 'o' => sp,
                     't' if w == 'o' => sp,
+                    'u' => ((m >> 6) & 7) << sh,
+                    'g' => ((m >> 3) & 7) << sh,
+                    'o' => (m & 7) << sh,
                     _ => 0,
                 };
             }
+        }
+        match op {
+            '=' => m = (m & !clear) | bits,
+            '+' => m |= bits,
+            _ => m &= !bits,
         }
     }
     m
@@ -432,7 +502,7 @@ fn check_perm(ctx: &mut Ctx, c: &PermCase) -> Outcome {
             .map(|v| format!("p/{v:04o}"))
             .collect();
         let mut reference: Option<Vec<u8>> = None;
-        for (si, spelling) in [format!("{m:o}"), symbolic(m, 0), symbolic(m, 1), symbolic(m, 2)].iter().enumerate() {
+        for (si, spelling) in [format!("{m:o}"), symbolic(m, 0), symbolic(m, 1), symbolic(m, 2), symbolic(m, 3), symbolic(m, 4), symbolic(m, 5)].iter().enumerate() {
             let op = format!("{prefix}{spelling}");
             let o = ctx.find(&["p", "-mindepth", "1", "-sorted", "-perm", &op, "-print"]);
             evals += 4096;
@@ -451,14 +521,14 @@ fn check_perm(ctx: &mut Ctx, c: &PermCase) -> Outcome {
             }
         }
     }
-    Pass::new(true).evals(evals).class("perm-operand-vs-all-4096-modes").sample(json!({"operand_octal": format!("{m:o}"), "symbolic": [symbolic(m, 0), symbolic(m, 1), symbolic(m, 2)]})).ok()
+    Pass::new(true).evals(evals).class("perm-operand-vs-all-4096-modes").sample(json!({"operand_octal": format!("{m:o}"), "symbolic": [symbolic(m, 0), symbolic(m, 1), symbolic(m, 2), symbolic(m, 3), symbolic(m, 4), symbolic(m, 5)]})).ok()
 }
 
 fn run(w: &mut Worker) {
     w.regress::<Case>("tests", check);
     w.regress::<PermCase>("perm", check_perm);
     if w.tier == crate::engine::Tier::Thorough {
-        w.exhaustive("perm", "every MODE operand 0..=07777 x {MODE,-MODE,/MODE} x {octal, 3 symbolic spellings} against all 4096 permission values", (0..0o10000u32).map(|mode| PermCase { mode }), check_perm);
+        w.exhaustive("perm", "every MODE operand 0..=07777 x {MODE,-MODE,/MODE} x {octal, 6 symbolic spellings} against all 4096 permission values", (0..0o10000u32).map(|mode| PermCase { mode }), check_perm);
     } else {
         w.random("perm", 320, (2, 4), 50, |g| PermCase { mode: if g.chance(1, 8) { g.pick(&[0u32, 0o7777, 0o4000, 0o2000, 0o1000, 0o777, 0o1, 0o7000]) } else { g.below(0o10000) as u32 } }, check_perm);
     }
